@@ -35,14 +35,21 @@ def stream_perm(chk, i, rng):
     # optimal-transport duals are not unique at degenerate optima: compare W gradients only through the score
     tol = (1e-7 if obj == "ws" else 1e-9)
     big = 1e3 if (obj == "chi" and mode in ("saturated", "onehot")) else 1.0
-    if abs(s - s2) > tol * scale * big * max(1.0, abs(s)):
+    extra, ill = gemlib.widen(obj, ovo, P, A, g.epsilon)
+    if ill:
+        # the implementation's own result moves by more than 1e-3 relative under rounding-level reordering: no value comparison
+        chk.dist["ill-conditioned (values not compared)"] += 1
+        chk.count(None)
+        return
+    mmd_abs = 2e-7 * np.sqrt(max(1.0, float(np.abs(A).max()))) if obj == "mmd" else 0.0
+    if abs(s - s2) > (tol + extra) * scale * big * max(1.0, abs(s)) + mmd_abs:
         chk.fail(f"perm:score:{obj}:{'ovo' if ovo else 'ova'}", f"{label}: score {s!r} changes to {s2!r} under a consistent permutation of samples and clusters", dict(replay, ps=ps.tolist(), pk=pk.tolist()), layer="L3")
     if obj != "ws":
         gscale = max(1.0, float(np.abs(gr).max()))
-        if not np.allclose(gr2, gr[ps][:, pk], rtol=1e-6, atol=1e-8 * gscale):
+        if not np.allclose(gr2, gr[ps][:, pk], rtol=1e-6 + extra, atol=(1e-8 + extra) * gscale):
             chk.fail(f"perm:grad:{obj}:{'ovo' if ovo else 'ova'}", f"{label}: gradient is not permuted accordingly", dict(replay, ps=ps.tolist(), pk=pk.tolist()), layer="L3")
     ms2, _ = gemlib.run_model(chk, obj, ovo, g.epsilon, P2, A2, calls2)
-    if not c01.close(ms2, s2, s2, tol=1e-8):
+    if not c01.close(ms2, s2, s2, tol=1e-8 + extra) and abs(ms2 - s2) > mmd_abs:
         chk.fail(f"perm:model-mismatch:{obj}", f"{label}: model {ms2!r} vs implementation {s2!r} on the permuted input", replay)
     chk.sample({"stream": "perm", "gemini": label, "n": n, "K": K, "mode": mode, "affinity": akind, "ps": ps.tolist(), "pk": pk.tolist(), "score": s})
     chk.dist[f"perm:{obj}:{'ovo' if ovo else 'ova'}"] += 1
